@@ -224,13 +224,20 @@ func verifHarnessC16Bounded() {
 	verifSF.follower = nondetBool("other.leads")
 	otherGiveUp := nondetMathI64("other.giveup")
 	assume(and(otherGiveUp >= start, otherGiveUp < 1<<55))
+	otherCtx := &verifCtx{tag: "other", hasDeadline: true, deadlineNS: otherGiveUp} // the other caller gives up at that moment
 	verifSF.followerFn = func(key string) (any, error) {
-		// the other caller's flight ends when its own context does; this caller waits for it
+		// the flight this caller shares is the OTHER caller's execution of the real lookup code with its own context
+		verifSF.follower = false
+		verifSF.other = true
+		h2, err2 := s.lookupSecretInternal(otherCtx, name)
+		verifSF.other = false
 		if verifNowNS < otherGiveUp {
 			verifNowNS = otherGiveUp
 		}
-		verifSF.follower = false // afterwards nobody else is in flight
-		return nil, &verifCtxErr{err: context.Canceled}
+		if err2 != nil {
+			return nil, err2
+		}
+		return h2, nil
 	}
 
 	h, err := s.LookupSecret(ctx, name)
@@ -277,8 +284,17 @@ func verifHarnessC15Updater() {
 	assume(mapHas(s.active.m, name))
 	var built []*verifBuilt
 	builds := 0
+	installedDuringBuild := false
 	builder := func(bs []byte) (*verifBuilt, error) {
 		builds++
+		seen := append([]byte(nil), bs...)
+		// the builder runs outside the store's lock: a poll may install a new version meanwhile
+		if nondetBool("install.during.build") {
+			nv := &api.SecretValue{Value: nondetSeq("race.val"), Version: api.SecretVersion(nondetU32("race.ver"))}
+			s.applyUpdates(map[string]*api.SecretValue{name: nv})
+			installedDuringBuild = true
+		}
+		bs = seen
 		if nondetBool("build.fail") {
 			return nil, verifErrInjected
 		}
@@ -294,8 +310,11 @@ func verifHarnessC15Updater() {
 	}
 	assert("watcher-registered", len(s.active.w[name]) == 1)
 	cur := u.value
-	assert("initial-built-from-current", bytesEq(cur.from, s.active.m[name].Secret.Value))
-	installedSinceGet := false
+	installedSinceGet := installedDuringBuild // an install that raced the creation must not be lost
+	installedDuringBuild = false
+	if !installedSinceGet {
+		assert("initial-built-from-current", bytesEq(cur.from, s.active.m[name].Secret.Value))
+	}
 	lastBuildFailed := false
 	for step := 0; step < param("steps"); step++ {
 		switch nondetChoice("event", 2) {
@@ -312,7 +331,9 @@ func verifHarnessC15Updater() {
 			} else {
 				assert("install-rebuilds-once", builds == b0+1)
 				if got != cur {
-					assert("new-value-built-from-newest-bytes", bytesEq(got.from, s.active.m[name].Secret.Value))
+					if !installedDuringBuild {
+						assert("new-value-built-from-newest-bytes", bytesEq(got.from, s.active.m[name].Secret.Value))
+					}
 					assert("replaced-value-closed-exactly-once", cur.closed == 1)
 					assert("no-error-after-success", u.Err() == nil)
 					lastBuildFailed = false
@@ -322,7 +343,8 @@ func verifHarnessC15Updater() {
 				}
 				cur = got
 			}
-			installedSinceGet = false
+			installedSinceGet = installedDuringBuild // an install that raced this rebuild is owed to the next Get
+			installedDuringBuild = false
 			assert("current-value-never-closed", cur.closed == 0)
 			_ = lastBuildFailed
 		}
